@@ -47,3 +47,9 @@ pub fn vmap2<T, U, F: Fn(&T) -> U>(v: &[T; 2], f: F) -> (r: Vec<U>)
     out.push(b);
     out
 }
+pub fn vmap_opt<'a, T, U, F: FnOnce(&'a T) -> U>(o: Option<&'a T>, f: F) -> (r: Option<U>)
+    requires o is Some ==> f.requires((o->Some_0,)),
+    ensures match o { Some(x) => r is Some && f.ensures((x,), r->Some_0), None => r is None },
+{
+    match o { Some(x) => Some(f(x)), None => None }
+}
